@@ -50,7 +50,7 @@ def main():
                 n += 1
                 if "exc" in r or r.get("nonfinite"):
                     excs.append(dict(case=case.get("idx", ci), op=oi, fn=r["fn"], exc=r.get("exc"), exc_msg=r.get("exc_msg"),
-                                     nonfinite=r.get("nonfinite"), tb=r.get("tb", "")[-500:], n_points=r.get("n_points")))
+                                     nonfinite=r.get("nonfinite"), tb=r.get("tb", "")[-500:], n_points=r.get("n_points"), garbage_rows=r.get("garbage_rows")))
     finally:
         sys.settrace(None)
     json.dump(dict(calls=n, hits={k: sorted(v) for k, v in HITS.items()}, exceptions=excs), open(sys.argv[2], "w"))
